@@ -56,6 +56,11 @@ func isOnCurve(X, Y, Z, T *field.Element) bool {
 	YY := new(field.Element).Square(Y)
 	ZZ := new(field.Element).Square(Z)
 	TT := new(field.Element).Square(T)
+	// Z = 0 satisfies both equations below with X = Y = T = 0, but does not
+	// represent any point.
+	if Z.Equal(new(field.Element)) == 1 {
+		return false
+	}
 	// -x² + y² = 1 + dx²y²
 	// -(X/Z)² + (Y/Z)² = 1 + d(T/Z)²
 	// -X² + Y² = Z² + dT²
